@@ -266,6 +266,7 @@ type Case struct {
 	API    string      `json:"api,omitempty"`
 	Link   []string    `json:"link_products,omitempty"`
 	Local  []string    `json:"local_files,omitempty"`
+	DSSE   bool        `json:"dsse,omitempty"`
 }
 
 func features(f []*ref.Node) string {
@@ -457,12 +458,21 @@ func applyChange(f []*ref.Node, ch string) ([]*ref.Node, []string) {
 	return g, []string{"true"}
 }
 
-func historyCase(c *mcx.Ctx, f []*ref.Node, ch, api string, dsse bool) (obs, sig string) {
+func historyCase(c *mcx.Ctx, f []*ref.Node, ch, api string, dsse bool, sw ...bool) (obs, sig string) {
 	b := setup(c, f)
 	os.Chdir(b)
 	defer os.Chdir("/")
 	after, cmd := applyChange(f, ch)
-	opt := defOpt(false, false)
+	follow, norm := false, false
+	if len(sw) == 2 {
+		follow, norm = sw[0], sw[1]
+	}
+	opt := defOpt(follow, norm)
+	defer func() {
+		if sig != "" && len(sw) == 2 {
+			sig += fmt.Sprintf("|follow=%v|normalise=%v", follow, norm)
+		}
+	}()
 	wantM, em := ref.Walk(base(f), opt)
 	wantP, ep := ref.Walk(base(after), opt)
 	k := gen.Key("ed1")
@@ -470,13 +480,13 @@ func historyCase(c *mcx.Ctx, f []*ref.Node, ch, api string, dsse bool) (obs, sig
 	var err error
 	switch api {
 	case "run":
-		md, err = intoto.InTotoRun("s", "", []string{"root"}, []string{"root"}, cmd, k.Full, []string{"sha256"}, nil, nil, false, false, dsse)
+		md, err = intoto.InTotoRun("s", "", []string{"root"}, []string{"root"}, cmd, k.Full, []string{"sha256"}, nil, nil, norm, follow, dsse)
 	default:
 		var pre intoto.Metadata
-		pre, err = intoto.InTotoRecordStart("s", []string{"root"}, k.Full, []string{"sha256"}, nil, nil, false, false, dsse)
+		pre, err = intoto.InTotoRecordStart("s", []string{"root"}, k.Full, []string{"sha256"}, nil, nil, norm, follow, dsse)
 		if err == nil {
 			if api == "record-wrong-key" {
-				_, e2 := intoto.InTotoRecordStop(pre, []string{"root"}, gen.Key("ed2").Full, []string{"sha256"}, nil, nil, false, false, dsse)
+				_, e2 := intoto.InTotoRecordStop(pre, []string{"root"}, gen.Key("ed2").Full, []string{"sha256"}, nil, nil, norm, follow, dsse)
 				c.Impl(2)
 				if e2 == nil {
 					return "record stop accepted a preliminary link signed by another key", "C13|record-stop-with-wrong-key-accepted"
@@ -487,7 +497,7 @@ func historyCase(c *mcx.Ctx, f []*ref.Node, ch, api string, dsse bool) (obs, sig
 			if rerr != nil {
 				return "command failed: " + rerr.Error(), ""
 			}
-			md, err = intoto.InTotoRecordStop(pre, []string{"root"}, k.Full, []string{"sha256"}, nil, nil, false, false, dsse)
+			md, err = intoto.InTotoRecordStop(pre, []string{"root"}, k.Full, []string{"sha256"}, nil, nil, norm, follow, dsse)
 		}
 	}
 	c.Impl(2)
@@ -712,6 +722,28 @@ func run(c *mcx.Ctx) {
 			}
 		})
 	}
+	// (b') the same on one tree on which both switches matter (CR/LF content, a directory behind a link),
+	// under all four combinations of the switches
+	swTree := parse("a=f1 d=d(x=f1) l=l:d")
+	for _, ch := range []string{"nothing", "create", "modify"} {
+		for _, api := range []string{"run", "record"} {
+			for _, dsse := range []bool{false, true} {
+				for _, follow := range []bool{false, true} {
+					for _, norm := range []bool{false, true} {
+						n++
+						if !c.Mine(n) || len(c.Rep.Caps) > 0 {
+							continue
+						}
+						obs, sig := historyCase(c, swTree, ch, api, dsse, follow, norm)
+						c.Case(true)
+						c.Step(1, 2)
+						c.Outcome("history-switches|" + strings.SplitN(obs, " ", 2)[0])
+						emitViolation(Case{Part: "history-switches", Tree: format(swTree), Change: ch, API: api, DSSE: dsse, Opt: ref.WalkOpt{Follow: follow, Normalise: norm}}, obs, sig)
+					}
+				}
+			}
+		}
+	}
 	// (c) match-products: 81 combinations
 	for _, l0 := range tri {
 		for _, l1 := range tri {
@@ -746,6 +778,8 @@ func replay(c *mcx.Ctx, raw json.RawMessage) (string, string) {
 		return recordCase(c, parse(cs.Tree), cs.Opt)
 	case "history":
 		return historyCase(c, parse(cs.Tree), cs.Change, cs.API, cs.Opt.Normalise)
+	case "history-switches":
+		return historyCase(c, parse(cs.Tree), cs.Change, cs.API, cs.DSSE, cs.Opt.Follow, cs.Opt.Normalise)
 	case "match-products":
 		return matchCase(c, cs.Link, cs.Local)
 	}
@@ -756,9 +790,9 @@ func init() {
 	mcx.Register(&mcx.Driver{
 		ID: "C13", Run: run, Replay: replay,
 		Rule: "(a) every directory tree with <= 4 (thorough 5) nodes below the recorded root: names {a,b,c}, depth <= 3, regular files with 4 contents (LF, CR/LF/CRLF mix, empty, 256 distinct bytes), directories, symbolic links whose target is every other node, '..', the link itself, a missing name or a file outside the recorded path (file links, directory links, chains, cycles, dangling links arise by construction), each materialised on disk and recorded under {follow directory links} x {normalise line endings}; " +
-			"(a') on all trees <= 3 nodes one deviation at a time of: 5 algorithm lists (two, sha384, none, unknown, three), 2 exclude patterns, 7 strip-prefix lists (incl. a second prefix that matches the remainder) x follow; a 100 KiB CR/LF file under normalise x follow, 4 path lists (two paths, duplicate, missing, reversed); (b) InTotoRun and InTotoRecordStart/Stop (also with the wrong key) x 6 changes between the snapshots (incl. a same-size rewrite that keeps the modification time) x trees <= 2 nodes x wrappers; (c) InTotoMatchProducts for the 81 combinations of two link products and two local files in {absent, 1, 2}. " +
+			"(a') on all trees <= 3 nodes one deviation at a time of: 5 algorithm lists (two, sha384, none, unknown, three), 2 exclude patterns, 7 strip-prefix lists (incl. a second prefix that matches the remainder) x follow; a 100 KiB CR/LF file under normalise x follow, 4 path lists (two paths, duplicate, missing, reversed); (b) InTotoRun and InTotoRecordStart/Stop (also with the wrong key) x 6 changes between the snapshots (incl. a same-size rewrite that keeps the modification time) x trees <= 2 nodes x wrappers, and on a tree with CR/LF content and a directory behind a link under all four combinations of {follow, normalise} x {run, record} x 3 changes x wrappers; (c) InTotoMatchProducts for the 81 combinations of two link products and two local files in {absent, 1, 2}. " +
 			"Oracle: ref.Walk on the description (never touches the disk). states = trees, transitions = recordings. non-trivial = non-empty tree.",
 		Assumptions: []string{"an exclude pattern on a tree with symbolic links is judged only where holding it against the name path and against the real location give the same result (which of the two counts is not fixed by the statement); so is a plain-name pattern that names a directory (whether the directory's contents are recorded)", "error text is not compared, only error versus artifacts"},
-		BudgetQuick:  200e9,
+		BudgetQuick: 200e9,
 	})
 }
